@@ -32,7 +32,10 @@ R = Registry(
         "every arm iterates the whole list, empty-set rendering selected by emptiness alone) and agree with "
         "each other on the row test, the empty arms and the list syntax; expanded elements are looked up in "
         "the bind-processor mapping by the raw bind name and their processors are registered under the keys "
-        "put into the parameter dictionary; generated element names are compared with the existing bind names."
+        "put into the parameter dictionary; generated element names are compared with the existing bind names; no function "
+        "of sql/coercions.py (the IN coercion in particular) stores on / mutates an object that is not a fresh copy on every path "
+        "to the store, so a caller's bindparam shared between an IN and a NOT IN statement keeps its expand_op; the text an "
+        "expander returned is spliced into the statement whole, never taken apart again at a separator."
     ),
     not_decided="three-valued truth of the backend's IN for non-empty lists; what the literal/bind processors "
                 "of a type do to a value; re-binding cached statements with other lengths beyond the clauses above.",
@@ -1258,7 +1261,14 @@ def r7(ctx):
              and isinstance(f.node, ast.FunctionDef)]
     ctx.require(any(f.name in COERCION_HOOKS for f in funcs), "no coercion hooks (_post_coercion ...) in sql/coercions.py")
     # who may be called from outside the module: hooks (through expect()), public names, names other modules mention
-    other_src = [m.source for m in ix.all_modules() if m is not mod and "coercions" in m.source]
+    mentioned = set()   # names of sql/coercions.py other modules refer to: coercions.<name>, from .coercions import <name>
+    for m in ix.all_modules():
+        if m is mod or "coercions" not in m.source:
+            continue
+        mentioned.update(re.findall(r"\bcoercions\.(\w+)", m.source))
+        for local, imp in m.imports.items():
+            if imp[0] == "symbol" and imp[1].endswith("coercions"):
+                mentioned.add(imp[2])
     sites = {}   # callee key -> [(caller, call)]
     for f in funcs:
         for c in calls_in(f.node):
@@ -1271,7 +1281,7 @@ def r7(ctx):
             return True
         if f.key not in sites:
             return True
-        return any(re.search(r"\bcoercions\.%s\b|import\s+%s\b" % (re.escape(f.name), re.escape(f.name)), src) for src in other_src)
+        return f.name in mentioned
 
     analyses = {}
 
